@@ -337,7 +337,15 @@ func genUnmPair(r *rng, n int, emit func(string, ...string)) {
 			g1.version = g.version
 			second = g.serialize()
 		}
-		switch sub.intn(5) {
+		switch sub.intn(6) {
+		case 5:
+			// the first record ends inside its header section (a truncated file, a dropped connection): the Unmarshaler is used again
+			full := g.serialize()
+			if k := bytes.Index(full, []byte("\r\n\r\n")); k > 12 {
+				first = full[:sub.rangeInt(10, k)]
+			} else {
+				first = full
+			}
 		case 4:
 			// the same record twice
 			first = second
@@ -379,6 +387,8 @@ func genUnmPair(r *rng, n int, emit func(string, ...string)) {
 
 func genC07(r *rng, n int, tier string, emit func(string, ...string)) {
 	genUnmPair(r, n/5, emit)
+	// the file reader: records looked at only after the following Next (every second stream), blocks spilled to disk
+	genCuts(r, n/300+6, tier, emit)
 	genC08(r, n/2, tier, emit)
 	// plus plain parses of clean records with small spill thresholds: the declared block must be readable completely
 	genUnmarshalCases(r, n, emit, func(r *rng) ropts {
